@@ -1,6 +1,7 @@
 package main
 
 import (
+	"encoding/asn1"
 	"crypto/rand"
 	"crypto/rsa"
 	"crypto/x509"
@@ -87,6 +88,52 @@ func mintCert(key *rsa.PrivateKey, subject pkix.Name, serial *big.Int) *x509.Cer
 		panic(err)
 	}
 	return c
+}
+
+// mintCertRawName makes a self-signed certificate whose subject and issuer are the
+// given DER Name, byte for byte (e.g. UTF8String values as OpenSSL writes them,
+// which a re-marshalling of the parsed name would turn into PrintableString).
+func mintCertRawName(key *rsa.PrivateKey, rawName []byte, serial *big.Int) *x509.Certificate {
+	tmpl := x509.Certificate{
+		SerialNumber: serial,
+		RawSubject:   rawName,
+		NotBefore:    time.Now().Add(-time.Hour),
+		NotAfter:     time.Now().Add(24 * time.Hour),
+		KeyUsage:     x509.KeyUsageDigitalSignature,
+		ExtKeyUsage:  []x509.ExtKeyUsage{x509.ExtKeyUsageCodeSigning},
+	}
+	der, err := x509.CreateCertificate(rand.Reader, &tmpl, &tmpl, &key.PublicKey, key)
+	if err != nil {
+		panic(err)
+	}
+	c, err := x509.ParseCertificate(der)
+	if err != nil {
+		panic(err)
+	}
+	return c
+}
+
+// utf8Name is the DER of a Name whose attribute values are UTF8Strings.
+func utf8Name(cn, org string) []byte {
+	type atv struct {
+		Type  asn1.ObjectIdentifier
+		Value string `asn1:"utf8"`
+	}
+	type rdn []atv
+	name := []rdn{{{asn1.ObjectIdentifier{2, 5, 4, 10}, org}}, {{asn1.ObjectIdentifier{2, 5, 4, 3}, cn}}}
+	var seq []asn1.RawValue
+	for _, r := range name {
+		b, err := asn1.MarshalWithParams(r, "set")
+		if err != nil {
+			panic(err)
+		}
+		seq = append(seq, asn1.RawValue{FullBytes: b})
+	}
+	out, err := asn1.Marshal(seq)
+	if err != nil {
+		panic(err)
+	}
+	return out
 }
 
 func simpleCert(key *rsa.PrivateKey, cn string, serial int64) *x509.Certificate {
